@@ -413,6 +413,12 @@ def gen_shape(rng, cx=False):
         yield case("reshape", [x, -1], kw, form="method")
         yield case("reshape", [A(rng, (), "any", cx), (1, 1)], kw)
         yield case("reshape", [A(rng, (1,), "any", cx), ()], kw)
+        # arguments that are C- and Fortran-contiguous at once (1-d, a single row, a single column)
+        for shp in ((6,), (1, 6), (6, 1), (1, 1, 6)):
+            yield case("reshape", [A(rng, shp, "any", cx), (2, 3)], kw, tags=["both_contiguous"])
+            yield case("reshape", [A(rng, shp, "any", cx), (3, 2)], kw, form="method", tags=["both_contiguous"])
+        yield case("ravel", [A(rng, (1, 6), "any", cx)], kw, tags=["both_contiguous"])
+        yield case("ravel", [A(rng, (6, 1), "any", cx)], kw, tags=["both_contiguous"])
         for r in RANKS:
             yield case("ravel", [R(r)], kw)
         yield case("ravel", [R(2)], kw, form="method")
@@ -632,6 +638,17 @@ def gen_shape(rng, cx=False):
             yield case("clip", [x], {"a_min": -0.77, "a_max": 0.81})
             yield case("clip", [x, None, 0.81])
             yield case("clip", [x, -0.77, None])
+            # NumPy >= 2.1 spelling of the bounds, including bounds that are exactly zero / falsy
+            yield case("clip", [x], {"min": -0.77, "max": 0.81}, tags=["min_max_kw"])
+            yield case("clip", [x], {"min": 0, "max": 0.81}, tags=["min_max_kw"])
+            yield case("clip", [x], {"min": -0.77, "max": 0.0}, tags=["min_max_kw"])
+            yield case("clip", [x], {"min": 0.0}, tags=["min_max_kw"])
+            yield case("clip", [x], {"max": 0}, tags=["min_max_kw"])
+            yield case("clip", [x], {"min": -0.77, "max": 0.81}, form="method", tags=["min_max_kw"])
+            yield case("clip", [x], {"min": 0, "max": 0.81}, form="method", tags=["min_max_kw"])
+            yield case("clip", [x, 0, 0.81], tags=["zero_bound"])
+            yield case("clip", [x, -0.77, 0], tags=["zero_bound"])
+            yield case("clip", [x], {"a_min": 0, "a_max": 0.81}, tags=["zero_bound"])
             if r >= 1:
                 lo = onp.full(x.shape[-1:], -0.77)
                 yield case("clip", [x, lo, 0.81], tags=["array_bound"])
